@@ -256,20 +256,22 @@ def lifeLog (tbl : List AppDef) : Entry → List Ev
 
 /-! ## reading the log -/
 
-def enteredOf : List Ev → List (Nat × Nat)
-  | [] => []
-  | .entered a i :: t => (a, i) :: enteredOf t
-  | _ :: t => enteredOf t
+/-- contexts whose start-up code completed, in log order -/
+def enteredOf (l : List Ev) : List (Nat × Nat) :=
+  l.filterMap (fun e => match e with
+    | .entered a i => some (a, i)
+    | _ => none)
 
-def exitsOf : List Ev → List (Nat × Nat)
-  | [] => []
-  | .exit a i :: t => (a, i) :: exitsOf t
-  | _ :: t => exitsOf t
+/-- contexts whose cleanup code ran, in log order (with repetitions) -/
+def exitsOf (l : List Ev) : List (Nat × Nat) :=
+  l.filterMap (fun e => match e with
+    | .exit a i => some (a, i)
+    | _ => none)
 
-def groupsOf : List Step → List Nat
-  | [] => []
-  | .grp a :: t => a :: groupsOf t
-  | _ :: t => groupsOf t
+def groupsOf (l : List Step) : List Nat :=
+  l.filterMap (fun st => match st with
+    | .grp a => some a
+    | _ => none)
 
 /-- what `add_subapp` guarantees of a table: every application's contexts are started at
 most once and cleaned at most once per signal (no application is registered twice) -/
